@@ -1,6 +1,7 @@
 """C08 Per-webentity link queries agree with page links and resolution."""
 import itertools
 
+from .. import alpha as al
 from .. import lru as L
 from .. import relational as R
 from ..engine_h import HCheck
@@ -33,9 +34,7 @@ class Check(HCheck):
             # every switch setting on the sorted order; the other orders (a rotation and the
             # reverse are enough to move every prefix to the first and last place) with all
             # switches on
-            orders = [tuple(pl)]
-            if len(pl) > 1:
-                orders += [tuple(reversed(pl)), tuple(pl[1:] + pl[:1])]
+            orders = [tuple(o) for o in al.few_orders(pl)]
             for oi, order in enumerate(orders):
                 order = list(order)
                 try:
